@@ -8,11 +8,11 @@ import GeoVerif.Lemmas.C10
 import GeoVerif.Lemmas.C12
 import GeoVerif.Lemmas.C13
 import GeoVerif.Lemmas.C14
-import GeoVerif.Lemmas.C15
 import GeoVerif.Properties.C01
 import GeoVerif.Properties.C02
 import GeoVerif.Properties.C05
 import GeoVerif.Properties.C03
 import GeoVerif.Properties.C04
 import GeoVerif.Properties.C11
+import GeoVerif.Properties.C15
 import GeoVerif.Properties.C16
